@@ -338,14 +338,16 @@ def execute(trace, ctx):
         alt = copy.deepcopy(view) if any(o.get("using_named") or (o.get("using") and _has_graph(o["where"])) for o in ops) else None
         dwv = [o for o in ops if o["op"] == "delete-where" and any(gt[0] == "v" for gt, _ in o["data"].get("graphs", []))]
         alt2 = copy.deepcopy(view) if dwv else None
+        alt_fresh, alt2_fresh = R.Fresh(), R.Fresh()
+        alt_fresh.n = alt2_fresh.n = 1000  # labels distinct from the main model's
         for o in ops:
             _probe(ctx, o, view, union and not single)
             R.apply_op(view, o, union, fresh, single_graph=single)
             prefixes.append(copy.deepcopy(view))
             if alt is not None:
-                R.apply_op(alt, o, union, R.Fresh(), single_graph=single, ignore_using_named=True)
+                R.apply_op(alt, o, union, alt_fresh, single_graph=single, ignore_using_named=True)
             if alt2 is not None and o not in dwv:
-                R.apply_op(alt2, o, union, R.Fresh(), single_graph=single)
+                R.apply_op(alt2, o, union, alt2_fresh, single_graph=single)
         store_back(view, defkey)
         if view != before:
             ctx.probe("request-changed-model")
